@@ -444,3 +444,76 @@ def upload_bodies_are_charged_only_while_sent(ctx):
                   and isinstance(n.value, ast.Constant) and n.value.value is (target.startswith('enable'))]
         ctx.ob(m, f'{meth} -> {target}', (len(calls) == 1 and not q.guards(calls[0])) or (len(direct) == 1 and not q.guards(direct[0])),
                'the transfer signal must switch the limiter (on while sending, off while preparing)')
+
+
+def _nonfinite(e):
+    """expression is float('inf') / float('nan') / math.inf / math.nan (either sign)"""
+    for x in ast.walk(e):
+        if isinstance(x, ast.Call) and norm(x.func) == 'float' and x.args and isinstance(x.args[0], ast.Constant) and isinstance(x.args[0].value, str) \
+                and x.args[0].value.strip('+-').lower() in ('inf', 'infinity', 'nan'):
+            return True
+        if isinstance(x, ast.Attribute) and norm(x) in ('math.inf', 'math.nan', 'numpy.inf'):
+            return True
+    return False
+
+
+@rule('C13.i', ['C13'], floor=1)
+def no_infinite_rate_is_remembered(ctx):
+    """The tracker's moving average is alpha*new + (1-alpha)*old: once it is infinite (or NaN)
+    it is infinite for ever, every later consume() is projected to exceed the limit, and
+    every read - however far below the limit - is delayed for the rest of the manager's
+    life.  The projection may use an infinite sample rate ("no time has passed: treat as
+    exceeding"), the *recorded* rate may not: on the fully expanded
+    record_consumption_rate, no feasible path stores into self._current_rate a value
+    computed from a non-finite constant.  Paths are enumerated with their branch
+    conditions (locals unfolded, integer-linear atoms normalised), so a guard such as
+    `if time_at_consumption <= self._last_time: return` in front of the update makes the
+    `time_delta <= 0` branch of the sample-rate helper infeasible."""
+    x = ctx.expanded()
+    f = x.func('bandwidth.BandwidthRateTracker.record_consumption_rate')
+    g = x.cfg(f)
+    stores = [n for n in own_nodes(f.node) if isinstance(n, ast.Assign) and any(dotted(t) == 'self._current_rate' for t in n.targets)]
+    ctx.need(stores, 'record_consumption_rate no longer stores self._current_rate')
+    import copy
+    n_paths = 0
+    for st in stores:
+        res = g.path_conditions([g.entry], g.nodes_of(st), labels=g.NORMAL, with_nodes=True)
+        ctx.need(res is not None, 'too many paths in record_consumption_rate')
+        bad = []
+        for conds, nodes in res:
+            n_paths += 1
+            env = {}
+
+            def subst(e):
+                class T(ast.NodeTransformer):
+                    def visit_Name(self, node):
+                        if isinstance(node.ctx, ast.Load) and node.id in env:
+                            return copy.deepcopy(env[node.id])
+                        return node
+                return T().visit(copy.deepcopy(e))
+            conds_u = []
+            ci = 0
+            # walk the path: unfold locals into the branch tests at the point where they are evaluated
+            tests = {id(e): None for e, _ in conds}
+            for nd in nodes:
+                if nd.kind in ('if', 'while') and nd.ast is not None and id(nd.ast) in tests and ci < len(conds) and conds[ci][0] is nd.ast:
+                    conds_u.append((subst(conds[ci][0]), conds[ci][1]))
+                    ci += 1
+                sa = nd.ast if nd.kind == 'stmt' else None
+                if isinstance(sa, ast.Assign) and len(sa.targets) == 1 and isinstance(sa.targets[0], ast.Name):
+                    env[sa.targets[0].id] = subst(sa.value)
+                elif isinstance(sa, ast.AugAssign) and isinstance(sa.target, ast.Name):
+                    env.pop(sa.target.id, None)
+            while ci < len(conds):
+                conds_u.append((subst(conds[ci][0]), conds[ci][1]))
+                ci += 1
+            val = subst(st.value)
+            if not _nonfinite(val):
+                continue
+            feasible = not q.guards_imply(conds_u, '__no_such_atom__')
+            if feasible:
+                bad.append(' and '.join(('' if p else 'not ') + f'({norm(e)})' for e, p in conds_u) or 'always')
+        ctx.ob(f.qualname, f'{norm(st.targets[0])} never receives a value computed from a non-finite constant', not bad,
+               f'when {bad[:2]} the recorded rate becomes infinite and never decays (alpha*x + (1-alpha)*inf = inf): every later read is throttled, '
+               'traffic far below the limit included', node=st)
+    ctx.extra['C13.i paths'] = n_paths
